@@ -66,6 +66,52 @@ def run_variant(v: dict) -> dict:
         shutil.rmtree(root, ignore_errors=True)
 
 
+def patch_variants(only: str | None):
+    """Whole-patch variants kept under /verif/seeded (independently seeded defects, must be reported by the checks recorded
+    as catching them) and /verif/neutral (independently written behaviour-preserving refactorings, must stay silent)."""
+    base = HERE.parent
+    out = []
+    for d in sorted((base / "seeded").glob("*/meta.json")):
+        m = json.loads(d.read_text())
+        props = [p for p in m.get("caught_by", []) if only is None or p == only]
+        if props:
+            out.append({"id": "seed:" + m["seed_id"], "kind": "break", "patch": str(d.parent / "patch.diff"), "props": props if only else props[:1]})
+    for d in sorted((base / "neutral").glob("*/meta.json")):
+        m = json.loads(d.read_text())
+        if m.get("quarantined"):
+            continue
+        if only is None:
+            out.append({"id": "neutral:" + m["neutral_id"], "kind": "neutral", "patch": str(d.parent / "patch.diff"), "props": ["all"]})
+        elif m["property"] == only:
+            out.append({"id": "neutral:" + m["neutral_id"], "kind": "neutral", "patch": str(d.parent / "patch.diff"), "props": [only]})
+    return out
+
+
+def run_patch_variant(v: dict) -> dict:
+    root = pathlib.Path(tempfile.mkdtemp(prefix="tlverif-patch-"))
+    try:
+        shutil.copytree(model.repo_root() / "src", root / "src")
+        r = subprocess.run(["git", "apply", "-p1", v["patch"]], cwd=root, capture_output=True, text=True)
+        if r.returncode != 0:
+            return {"id": v["id"], "ok": False, "why": "patch does not apply to the current tree (stale)", "stale": True}
+        env = dict(os.environ, TLVERIF_REPO=str(root), TLVERIF_NO_EVIDENCE="1")
+        out = []
+        for prop in v["props"]:
+            r = subprocess.run([sys.executable, "-m", "tlverif", prop, "--tier", "quick"], cwd=HERE.parent, env=env, capture_output=True, text=True)
+            out.append((prop, r.returncode, r.stdout + r.stderr))
+        if v["kind"] == "break":
+            if any(c == 1 for _, c, _ in out):
+                return {"id": v["id"], "ok": True}
+            return {"id": v["id"], "ok": False, "why": "seeded defect no longer reported: " + "; ".join(f"{p} exit={c}" for p, c, _ in out), "out": out[0][2][-800:]}
+        bad = [(p, c, t) for p, c, t in out if c != 0]
+        if bad:
+            lines = [ln for ln in bad[0][2].splitlines() if ln.startswith(("VIOLATION", "UNDECIDED", "ANALYSIS-ERROR")) or " rule " in ln]
+            return {"id": v["id"], "ok": False, "why": "behaviour-preserving refactoring raised an alarm: " + "; ".join(f"{p} exit={c}" for p, c, _ in bad), "out": "\n".join(lines[:10])}
+        return {"id": v["id"], "ok": True}
+    finally:
+        shutil.rmtree(root, ignore_errors=True)
+
+
 LAST: dict = {}
 
 
@@ -169,12 +215,14 @@ def main(jobs: int = 16, only: str | None = None, strict: bool = True) -> int:
     vs = load_variants()
     if only:
         vs = [v for v in vs if only in v["props"]]
-    if not vs:
+    pvs = patch_variants(only)
+    if not vs and not pvs:
         print(f"[selftest] no variants for {only}")
         return 0
     res = []
     with cf.ThreadPoolExecutor(max_workers=jobs) as ex:
         futs = [ex.submit(run_global, g) for g in GLOBAL_TRANSFORMS] if only is None else []
+        futs += [ex.submit(run_patch_variant, v) for v in pvs]
         for r in ex.map(run_variant, vs):
             res.append(r)
         for fu in futs:
@@ -185,9 +233,10 @@ def main(jobs: int = 16, only: str | None = None, strict: bool = True) -> int:
         if not strict:
             print(f"SELFTEST-SKIP {r['id']}: {r['why']}")
     nb = sum(1 for v in vs if v["kind"] == "break")
-    print(f"[selftest{' ' + only if only else ''}] variants={len(vs)} (break={nb}, neutral={len(vs) - nb}) failed={len(bad)} wall={time.time() - t0:.1f}s")
+    npb = sum(1 for v in pvs if v["kind"] == "break")
+    print(f"[selftest{' ' + only if only else ''}] variants={len(vs)} (break={nb}, neutral={len(vs) - nb}) seeded-patches={npb} neutral-patches={len(pvs) - npb} failed={len(bad)} wall={time.time() - t0:.1f}s")
     LAST.clear()
-    LAST.update({"variants": len(vs), "break": nb, "neutral": len(vs) - nb, "failed": len(bad), "stale_skipped": 0 if strict else len(stale), "ids": [v["id"] for v in vs], "wall_s": round(time.time() - t0, 2)})
+    LAST.update({"variants": len(vs), "break": nb, "neutral": len(vs) - nb, "seeded_patches": npb, "neutral_patches": len(pvs) - npb, "failed": len(bad), "stale_skipped": 0 if strict else len(stale), "ids": [v["id"] for v in vs] + [v["id"] for v in pvs], "wall_s": round(time.time() - t0, 2)})
     for r in bad:
         print(f"SELFTEST-FAIL {r['id']}: {r['why']}")
         if r.get("out"):
